@@ -67,6 +67,12 @@ Model/SolutionsCheck.vos Model/SolutionsCheck.vok Model/SolutionsCheck.required_
 Model/OpCheck.vo Model/OpCheck.glob Model/OpCheck.v.beautified Model/OpCheck.required_vo: Model/OpCheck.v Model/Term.vo Model/OpTable.vo Gen/Bootstrap_gen.vo
 Model/OpCheck.vio: Model/OpCheck.v Model/Term.vio Model/OpTable.vio Gen/Bootstrap_gen.vio
 Model/OpCheck.vos Model/OpCheck.vok Model/OpCheck.required_vos: Model/OpCheck.v Model/Term.vos Model/OpTable.vos Gen/Bootstrap_gen.vos
+Model/Loader.vo Model/Loader.glob Model/Loader.v.beautified Model/Loader.required_vo: Model/Loader.v 
+Model/Loader.vio: Model/Loader.v 
+Model/Loader.vos Model/Loader.vok Model/Loader.required_vos: Model/Loader.v 
+Model/LoaderCheck.vo Model/LoaderCheck.glob Model/LoaderCheck.v.beautified Model/LoaderCheck.required_vo: Model/LoaderCheck.v Model/Loader.vo
+Model/LoaderCheck.vio: Model/LoaderCheck.v Model/Loader.vio
+Model/LoaderCheck.vos Model/LoaderCheck.vok Model/LoaderCheck.required_vos: Model/LoaderCheck.v Model/Loader.vos
 Model/MachineCheck.vo Model/MachineCheck.glob Model/MachineCheck.v.beautified Model/MachineCheck.required_vo: Model/MachineCheck.v Model/Term.vo Model/Unify.vo Model/Clause.vo Model/Machine.vo Model/Boot.vo Model/Sld.vo Gen/Bootstrap_gen.vo
 Model/MachineCheck.vio: Model/MachineCheck.v Model/Term.vio Model/Unify.vio Model/Clause.vio Model/Machine.vio Model/Boot.vio Model/Sld.vio Gen/Bootstrap_gen.vio
 Model/MachineCheck.vos Model/MachineCheck.vok Model/MachineCheck.required_vos: Model/MachineCheck.v Model/Term.vos Model/Unify.vos Model/Clause.vos Model/Machine.vos Model/Boot.vos Model/Sld.vos Gen/Bootstrap_gen.vos
@@ -145,3 +151,9 @@ Proofs/Scan.vos Proofs/Scan.vok Proofs/Scan.required_vos: Proofs/Scan.v Model/Sc
 Props/C15.vo Props/C15.glob Props/C15.v.beautified Props/C15.required_vo: Props/C15.v Model/Scan.vo Gen/Scan_gen.vo Proofs/Scan.vo
 Props/C15.vio: Props/C15.v Model/Scan.vio Gen/Scan_gen.vio Proofs/Scan.vio
 Props/C15.vos Props/C15.vok Props/C15.required_vos: Props/C15.v Model/Scan.vos Gen/Scan_gen.vos Proofs/Scan.vos
+Proofs/Loader.vo Proofs/Loader.glob Proofs/Loader.v.beautified Proofs/Loader.required_vo: Proofs/Loader.v Model/Loader.vo
+Proofs/Loader.vio: Proofs/Loader.v Model/Loader.vio
+Proofs/Loader.vos Proofs/Loader.vok Proofs/Loader.required_vos: Proofs/Loader.v Model/Loader.vos
+Props/C20.vo Props/C20.glob Props/C20.v.beautified Props/C20.required_vo: Props/C20.v Model/Loader.vo Proofs/Loader.vo
+Props/C20.vio: Props/C20.v Model/Loader.vio Proofs/Loader.vio
+Props/C20.vos Props/C20.vok Props/C20.required_vos: Props/C20.v Model/Loader.vos Proofs/Loader.vos
